@@ -189,6 +189,8 @@ class FakeSerial(_Conn):
         w.yield_point('send')
         data = bytes(data)
         w.log.append(('send', w.current(), data))
+        if w.local_echo:
+            self.feed([(0.0, data)])
         items = w.peer.on_write(self, data)
         w.peer.written.append(data)
         self.feed(items or [])
@@ -234,6 +236,7 @@ class World(object):
         self.steps = 0
         self.conns = []
         self.connect_refusals = []     # consumed one per connection attempt: True = that attempt is refused
+        self.local_echo = False        # serial line that echoes every written byte back to the writer (RS-485 two-wire adapters)
         self.scheduler = scheduler
         if scheduler is not None:
             scheduler.clock = self.clock
@@ -332,6 +335,26 @@ class World(object):
         for mod, name, val in self._saved:
             setattr(mod, name, val)
         return False
+
+
+def serial_options():
+    """Hypothesis strategy: constructor options of ModbusSerialClient that the checks vary."""
+    from hypothesis import strategies as st
+    return st.one_of(st.just({}), st.fixed_dictionaries({
+        'echo': st.booleans(),                       # handle_local_echo=True on a line that echoes
+        'strict': st.booleans(),
+        'baud': st.sampled_from([9600, 19200, 19200, 38400, 115200])}))
+
+
+def serial_kwargs(world, opts):
+    opts = opts or {}
+    world.local_echo = bool(opts.get('echo'))
+    kw = {'baudrate': opts.get('baud', 19200)}
+    if 'strict' in opts:
+        kw['strict'] = opts['strict']
+    if opts.get('echo'):
+        kw['handle_local_echo'] = True
+    return kw
 
 
 # --------------------------------------------------------------------------------------- reference responder
